@@ -1,10 +1,12 @@
 (** Property C05: everything after [--] is delivered verbatim as positional values.
     Only pinned statements; proofs live in ParseProofs/Escape.v (the loop after the escape) and, round 2,
     ParseProofs/EscapeWalk.v (the loop before the escape), EscapeStore.v (pending values -> entry),
-    EscapeTop.v (get_matches_with / do_parse / parse_top). *)
+    EscapeTop.v (get_matches_with / do_parse / parse_top) and, round 3, EscapeAny.v (every shape of positionals,
+    hyphen-accepting levels, global arguments), EscapeDdt.v (dont_delimit_trailing_values as a global setting),
+    EscapeHyphen.v (delivery with hyphen-accepting arguments), EscapeAppend.v (Append positionals with num_args(1)). *)
 From ClapModel Require Import Base.Bytes Base.Machine Base.Utf8 Lex.OsStrExtModel.
 From ClapModel Require Import Parse.Cmd Parse.Build Parse.Valid Parse.Matcher Parse.Errors Parse.Validator Parse.Parser.
-From ClapModel Require Import ParseProofs.Totality ParseProofs.Dispatch ParseProofs.Escape ParseProofs.EscapeWalk ParseProofs.EscapeStore ParseProofs.EscapeLevel ParseProofs.EscapeChain ParseProofs.EscapeDisplay ParseProofs.EscapeGlobals ParseProofs.EscapeTop.
+From ClapModel Require Import ParseProofs.Totality ParseProofs.Dispatch ParseProofs.Escape ParseProofs.EscapeWalk ParseProofs.EscapeStore ParseProofs.EscapeLevel ParseProofs.EscapeChain ParseProofs.EscapeDisplay ParseProofs.EscapeGlobals ParseProofs.EscapeTop ParseProofs.EscapeAny ParseProofs.EscapeDdt ParseProofs.EscapeHyphen ParseProofs.EscapeAppend.
 From Coq Require Import ZArith.
 From RecordUpdate Require Import RecordSet.
 Import RecordSetNotations.
@@ -549,3 +551,363 @@ Theorem C05_parse_top_is_do_parse : forall c0 bin rest,
             end) rest.
 Proof. exact parse_top_is_do_parse. Qed.
 Print Assumptions C05_parse_top_is_do_parse.
+
+(** * Round 3 *)
+
+(** ** (1) levels WITH hyphen-accepting arguments
+
+    The loop before the escape without the hypothesis "no argument of the level accepts hyphen values": the
+    line [pre ++ -- :: t] behaves as in [C05_escape_line_sim] ([esim]), or -- the documented exception -- it
+    reaches the [--], in ONE state that does not depend on the tail, while an argument that accepts hyphen
+    values is still being collected; the [--] is then a value of that argument
+    ([C05_hyphen_opt_takes_dashdash]).  Hyphen-accepting arguments that are NOT being collected at the [--]
+    change nothing. *)
+Theorem C05_escape_line_sim_h : forall c,
+  (forall a, In a (c_args c) -> find_arg c (a_id a) = Some a) ->
+  (forall a, In a (c_args c) -> a_index a <> None -> a_takes_value a = true) ->
+  (forall vaf, possible_subcommand c dashdash vaf = None) ->
+  forall pre t1 t2 ls st, TV c st -> LTV c ls ->
+  esim c t1 t2 ls st (parse_loop c (pre ++ dashdash :: t1) ls st) (parse_loop c (pre ++ dashdash :: t2) ls st)
+  \/ hyphen_exception c t1 t2 ls st (parse_loop c (pre ++ dashdash :: t1) ls st) (parse_loop c (pre ++ dashdash :: t2) ls st).
+Proof. exact escape_line_sim_h. Qed.
+Print Assumptions C05_escape_line_sim_h.
+
+Theorem C05_hyphen_exception_def : forall c t1 t2 ls st R1 R2,
+  hyphen_exception c t1 t2 ls st R1 R2 <->
+  exists ls' st' a, TV c st' /\ LTV c ls' /\ mt_sub (mt st') = mt_sub (mt st) /\ l_trailing ls' = false /\
+    state_arg c (l_pst ls') = ROk (Some a) /\ a_hyphen a = true /\
+    R1 = parse_loop c (dashdash :: t1) ls' st' /\ R2 = parse_loop c (dashdash :: t2) ls' st'.
+Proof. exact (fun c t1 t2 ls st R1 R2 => conj (fun H => H) (fun H => H)). Qed.
+Print Assumptions C05_hyphen_exception_def.
+
+(** ** (1)/(2)/(4) no token of the tail reaches an argument that is not a positional -- for EVERY shape of
+    positionals ([Append] with [num_args(1)], terminators, low-index multiples, overflow into an external
+    subcommand).  The trailing-mode loop followed by [resolve_pending]: every entry that no positional can
+    touch ([pos_untouched]) is the entry of [tail_base st] -- the state the tail started from, with an open
+    occurrence of a NON-positional argument (an option still collecting values when the [--] arrived) closed
+    there, independently of the tail. *)
+Theorem C05_trailing_any_base : forall c, lvl c ->
+  forall l ls st lr r,
+  l_trailing ls = true -> parse_loop c l ls st = ROk lr -> resolve_pending c (lr_state lr) = ROk r ->
+  exists b, tail_base c st = ROk b /\ forall y, pos_untouched c y -> get_entry y r = get_entry y b.
+Proof. exact trailing_any_base. Qed.
+Print Assumptions C05_trailing_any_base.
+
+Theorem C05_tail_base_def : forall c st y,
+  tail_base c st = match mt_pending (mt st) with
+                   | Some p => if (match find_arg c (p_id p) with Some a => is_some (a_index a) | None => false end)
+                               then ROk st else resolve_pending c st
+                   | None => ROk st
+                   end
+  /\ (pos_untouched c y <-> forall a, In a (c_args c) -> a_index a <> None -> touched c a y = false).
+Proof. exact (fun c st y => conj eq_refl (conj (fun H => H) (fun H => H))). Qed.
+Print Assumptions C05_tail_base_def.
+
+(** ... and the trailing-mode loop never writes the recorded subcommand *)
+Theorem C05_trailing_any_sub : forall c l ls st lr,
+  l_trailing ls = true -> parse_loop c l ls st = ROk lr -> mt_sub (mt (lr_state lr)) = mt_sub (mt st).
+Proof. exact trailing_any_sub. Qed.
+Print Assumptions C05_trailing_any_sub.
+
+(** one level of [get_matches_with], every shape of positionals, hyphen-accepting arguments allowed: two
+    successful parses of the same prefix with tails [t1], [t2] (either may be empty) agree on every
+    command-line entry no positional can touch and (external subcommands off) recorded no subcommand
+    ([same_any]); or [pre] dispatched; or the exception of (1). *)
+Theorem C05_level_prefix_any : forall c, lvl c ->
+  (forall vaf, possible_subcommand c dashdash vaf = None) ->
+  forall f pre t1 t2 st0 s1 s2,
+  mt_pending (mt st0) = None ->
+  get_matches_with (S f) c (pre ++ dashdash :: t1) st0 = ROk s1 ->
+  get_matches_with (S f) c (pre ++ dashdash :: t2) st0 = ROk s2 ->
+  same_any c st0 s1 s2
+  \/ (exists n k v st1 r,
+        parse_loop c (pre ++ dashdash :: t1) ls0 st0 = ROk (LSub n k v st1 (r ++ dashdash :: t1)) /\
+        parse_loop c (pre ++ dashdash :: t2) ls0 st0 = ROk (LSub n k v st1 (r ++ dashdash :: t2)))
+  \/ (exists tk r st1,
+        parse_loop c (pre ++ dashdash :: t1) ls0 st0 = ROk (LExternal tk (r ++ dashdash :: t1) st1) /\
+        parse_loop c (pre ++ dashdash :: t2) ls0 st0 = ROk (LExternal tk (r ++ dashdash :: t2) st1))
+  \/ hyphen_exception c t1 t2 ls0 st0
+       (parse_loop c (pre ++ dashdash :: t1) ls0 st0) (parse_loop c (pre ++ dashdash :: t2) ls0 st0).
+Proof. exact level_prefix_any. Qed.
+Print Assumptions C05_level_prefix_any.
+
+Theorem C05_same_any_def : forall c st0 s1 s2,
+  same_any c st0 s1 s2 <->
+  ((forall y e, pos_untouched c y -> find_group c y = None ->
+                get_entry y s1 = Some e -> m_source e = Some SCmdLine -> get_entry y s2 = Some e)
+   /\ (is_set s_allow_external c = false -> mt_sub (mt s1) = mt_sub (mt st0) /\ mt_sub (mt s2) = mt_sub (mt st0))).
+Proof. exact (fun c st0 s1 s2 => conj (fun H => H) (fun H => H)). Qed.
+Print Assumptions C05_same_any_def.
+
+(** over the recursion into subcommands ([esc_okh]: as [esc_ok], but hyphen-accepting arguments and
+    Help/Version arguments with env/defaults are allowed) *)
+Theorem C05_gmw_prefix_any : forall fuel c pre t1 t2 st0 s1 s2,
+  esc_okh fuel c -> mt_pending (mt st0) = None -> mt_sub (mt st0) = None ->
+  get_matches_with fuel c (pre ++ dashdash :: t1) st0 = ROk s1 ->
+  get_matches_with fuel c (pre ++ dashdash :: t2) st0 = ROk s2 ->
+  prefix_any [] fuel c (into_inner (mt s1)) (into_inner (mt s2)).
+Proof. exact gmw_prefix_any. Qed.
+Print Assumptions C05_gmw_prefix_any.
+
+(** ** (5) ... and for the entry points, GLOBAL ARGUMENTS PRESENT: class [esc_class_h] = [plain], [valid], no
+    [ignore_errors], no subcommand named [--]; every shape of positionals, hyphen-accepting arguments and
+    global arguments allowed.  [fill_in_global_values] rewrites the entries of global arguments at every level
+    after the parse; every other entry is compared ([prefix_any] with [gl] = the global ids of the tree). *)
+Theorem C05_parse_top_prefix_any : forall c0 bin pre t1 t2 m1 m2,
+  esc_class_h c0 = true -> is_set s_no_binary_name c0 = false -> c_bin_name c0 <> None ->
+  parse_top c0 (bin :: pre ++ dashdash :: t1) = OOk m1 -> parse_top c0 (bin :: pre ++ dashdash :: t2) = OOk m2 ->
+  prefix_any (all_globals (build_recursive (top_fuel c0) c0)) (top_fuel c0) (build_self c0) m1 m2.
+Proof. exact parse_top_prefix_any. Qed.
+Print Assumptions C05_parse_top_prefix_any.
+
+Theorem C05_do_parse_prefix_any : forall c0 pre t1 t2 m1 m2,
+  esc_class_h c0 = true ->
+  do_parse c0 (pre ++ dashdash :: t1) = OOk m1 -> do_parse c0 (pre ++ dashdash :: t2) = OOk m2 ->
+  prefix_any (all_globals (build_recursive (top_fuel c0) c0)) (top_fuel c0) (build_self c0) m1 m2.
+Proof. exact do_parse_prefix_any. Qed.
+Print Assumptions C05_do_parse_prefix_any.
+
+Theorem C05_prefix_any_def : forall gl f c m1 m2,
+  prefix_any gl (S f) c m1 m2 <->
+  (((forall y e, mem_id y gl = false -> pos_untouched c y -> find_group c y = None ->
+                 fm_get y (ms_args m1) = Some e -> m_source e = Some SCmdLine -> fm_get y (ms_args m2) = Some e)
+    /\ (is_set s_allow_external c = false -> ms_sub m1 = None /\ ms_sub m2 = None))
+   \/ (exists name sc sm1 sm2, build_subcommand c name = Some sc /\ ms_sub m1 = Some (c_name sc, sm1)
+                               /\ ms_sub m2 = Some (c_name sc, sm2)
+                               /\ (forall y, mem_id y gl = false -> fm_get y (ms_args m1) = fm_get y (ms_args m2))
+                               /\ prefix_any gl f sc sm1 sm2)
+   \/ (exists name sm1 sm2,
+         ms_sub m1 = Some (name, sm1) /\ ms_sub m2 = Some (name, sm2) /\
+         (forall y, mem_id y gl = false -> fm_get y (ms_args m1) = fm_get y (ms_args m2)))
+   \/ (exists a, In a (c_args c) /\ a_hyphen a = true)).
+Proof. exact (fun gl f c m1 m2 => conj (fun H => H) (fun H => H)). Qed.
+Print Assumptions C05_prefix_any_def.
+
+Theorem C05_esc_class_h_def : forall c0 f c,
+  esc_class_h c0 = plain c0 && valid c0 && esc_okhb (top_fuel c0) (build_self c0) /\
+  esc_okhb (S f) c =
+    negb (is_set s_ignore_errors c)
+    && negb (is_some (possible_subcommand c dashdash false)) && negb (is_some (possible_subcommand c dashdash true))
+    && forallb (fun s => match build_subcommand c (c_name s) with Some sc => esc_okhb f sc | None => false end) (c_subs c).
+Proof. exact (fun c0 f c => conj eq_refl eq_refl). Qed.
+Print Assumptions C05_esc_class_h_def.
+
+(** the new class contains the class of the round-2 theorems; on a level without hyphen-accepting arguments
+    the fourth case of [prefix_any] / [C05_level_prefix_any] cannot occur *)
+Theorem C05_esc_class0_h : forall c0, esc_class0 c0 = true -> esc_class_h c0 = true.
+Proof. exact esc_class0_h. Qed.
+Print Assumptions C05_esc_class0_h.
+
+Theorem C05_no_hyphen_exception : forall c t1 t2 ls st R1 R2,
+  (forall a, In a (c_args c) -> a_hyphen a = false) -> hyphen_exception c t1 t2 ls st R1 R2 -> False.
+Proof. exact no_hyphen_exception. Qed.
+Print Assumptions C05_no_hyphen_exception.
+
+(** ** (3) [dont_delimit_trailing_values] as a GLOBAL setting holds at every depth
+
+    [_propagate_subcommand] (Build.v [propagate_subcommand], run by [_build_self] on every child) ors the
+    parent's [g_settings] into the child's: for every [plain] definition with the flag in its [g_settings]
+    (where [Command::dont_delimit_trailing_values] puts it), every level of every chain of built
+    subcommands has the setting. *)
+Theorem C05_global_ddt_every_level : forall f x,
+  plain x = true -> s_dont_delimit_trailing (c_gset x) = true -> ddt_all f (build_self x).
+Proof. exact ddt_all_of_global. Qed.
+Print Assumptions C05_global_ddt_every_level.
+
+Theorem C05_ddt_all_def : forall f c,
+  ddt_all (S f) c <-> (is_set s_dont_delimit_trailing c = true
+                       /\ forall name sc, build_subcommand c name = Some sc -> ddt_all f sc).
+Proof. exact (fun f c => conj (fun H => H) (fun H => H)). Qed.
+Print Assumptions C05_ddt_all_def.
+
+(** ... so [delivered] holds with the stored form of the tail equal to the tail ([delivered_v]): at whatever
+    depth the [--] was consumed, the last value group of the absorbing positional ends with the tail itself --
+    its first token included, whatever the positional had collected before the [--] *)
+Theorem C05_delivered_ddt : forall f c t m, ddt_all f c -> delivered f c t m -> delivered_v f c t m.
+Proof. exact delivered_ddt. Qed.
+Print Assumptions C05_delivered_ddt.
+
+Theorem C05_delivered_v_def : forall f c t m,
+  delivered_v (S f) c t m <->
+  (((forall a, sink_from c 1 a ->
+       ms_sub m = None /\
+       exists e gs early', fm_get (a_id a) (ms_args m) = Some e /\ m_raw e = gs ++ [early' ++ t]
+                           /\ m_source e = Some SCmdLine)
+    /\ (chainc c = true ->
+        ms_sub m = None /\ (forall a t0, tail_form c a t0 = Some t0)
+        /\ exists x pc, chain_filled c (fun y => fm_get y (ms_args m)) pc (x ++ t)))
+   \/ (exists name sc sm, build_subcommand c name = Some sc /\ ms_sub m = Some (c_name sc, sm) /\ delivered_v f sc t sm)
+   \/ (exists name vals sm, ms_sub m = Some (name, sm) /\ ms_sub sm = None /\
+                            fm_get ext_id (ms_args sm) = Some (ext_marg (vals ++ dashdash :: t)))).
+Proof. exact (fun f c t m => conj (fun H => H) (fun H => H)). Qed.
+Print Assumptions C05_delivered_v_def.
+
+Theorem C05_parse_top_delivered_ddt : forall c0 bin pre t m,
+  esc_class_g c0 = true -> s_dont_delimit_trailing (c_gset c0) = true ->
+  is_set s_no_binary_name c0 = false -> c_bin_name c0 <> None -> t <> [] ->
+  parse_top c0 (bin :: pre ++ dashdash :: t) = OOk m ->
+  delivered_v (top_fuel c0) (build_self c0) t m.
+Proof. exact parse_top_delivered_ddt. Qed.
+Print Assumptions C05_parse_top_delivered_ddt.
+
+Theorem C05_do_parse_delivered_ddt : forall c0 pre t m,
+  esc_class_g c0 = true -> s_dont_delimit_trailing (c_gset c0) = true -> t <> [] ->
+  do_parse c0 (pre ++ dashdash :: t) = OOk m ->
+  delivered_v (top_fuel c0) (build_self c0) t m.
+Proof. exact do_parse_delivered_ddt. Qed.
+Print Assumptions C05_do_parse_delivered_ddt.
+
+(** ** (1) verbatim delivery for levels and trees WITH hyphen-accepting arguments: the conclusions of
+    [C05_level_tail_verbatim] / [C05_gmw_delivered] / [C05_parse_top_delivered_g] with one more case, the
+    documented exception (an argument accepting hyphen values was still being collected at the [--]) *)
+Theorem C05_level_tail_verbatim_h : forall c,
+  lvl c -> lvl_store c -> (forall vaf, possible_subcommand c dashdash vaf = None) ->
+  forall f pre t st0 st',
+  t <> [] -> mt_pending (mt st0) = None ->
+  get_matches_with (S f) c (pre ++ dashdash :: t) st0 = ROk st' ->
+  (consumed_sink c t st0 st' (parse_loop c (pre ++ dashdash :: t) ls0 st0) /\
+   consumed_chain c t st0 st' (parse_loop c (pre ++ dashdash :: t) ls0 st0))
+  \/ (exists n k v st1 r, parse_loop c (pre ++ dashdash :: t) ls0 st0 = ROk (LSub n k v st1 (r ++ dashdash :: t)))
+  \/ (exists tk r st1, parse_loop c (pre ++ dashdash :: t) ls0 st0 = ROk (LExternal tk (r ++ dashdash :: t) st1))
+  \/ hyphen_exception c t t ls0 st0
+       (parse_loop c (pre ++ dashdash :: t) ls0 st0) (parse_loop c (pre ++ dashdash :: t) ls0 st0).
+Proof. exact level_tail_verbatim_h. Qed.
+Print Assumptions C05_level_tail_verbatim_h.
+
+Theorem C05_gmw_delivered_h : forall fuel c pre t st0 st',
+  esc_okh fuel c -> t <> [] -> mt_pending (mt st0) = None -> mt_sub (mt st0) = None ->
+  get_matches_with fuel c (pre ++ dashdash :: t) st0 = ROk st' ->
+  delivered_h fuel c t (into_inner (mt st')).
+Proof. exact gmw_delivered_h. Qed.
+Print Assumptions C05_gmw_delivered_h.
+
+Theorem C05_delivered_h_def : forall f c t m,
+  delivered_h (S f) c t m <->
+  (((forall a, sink_from c 1 a ->
+       ms_sub m = None /\
+       exists e gs early' t', fm_get (a_id a) (ms_args m) = Some e /\ m_raw e = gs ++ [early' ++ t']
+                              /\ m_source e = Some SCmdLine /\ tail_form c a t = Some t')
+    /\ (chainc c = true ->
+        ms_sub m = None /\ exists x pc, chain_filled c (fun y => fm_get y (ms_args m)) pc (x ++ t)))
+   \/ (exists name sc sm, build_subcommand c name = Some sc /\ ms_sub m = Some (c_name sc, sm) /\ delivered_h f sc t sm)
+   \/ (exists name vals sm, ms_sub m = Some (name, sm) /\ ms_sub sm = None /\
+                            fm_get ext_id (ms_args sm) = Some (ext_marg (vals ++ dashdash :: t)))
+   \/ (exists a, In a (c_args c) /\ a_hyphen a = true)).
+Proof. exact (fun f c t m => conj (fun H => H) (fun H => H)). Qed.
+Print Assumptions C05_delivered_h_def.
+
+(** on a tree without hyphen-accepting arguments the fourth case does not occur *)
+Theorem C05_delivered_h_plain : forall f c t m, esc_ok f c -> delivered_h f c t m -> delivered f c t m.
+Proof. exact delivered_h_plain. Qed.
+Print Assumptions C05_delivered_h_plain.
+
+Theorem C05_parse_top_delivered_h : forall c0 bin pre t m,
+  esc_class_hg c0 = true -> is_set s_no_binary_name c0 = false -> c_bin_name c0 <> None -> t <> [] ->
+  parse_top c0 (bin :: pre ++ dashdash :: t) = OOk m ->
+  delivered_h (top_fuel c0) (build_self c0) t m.
+Proof. exact parse_top_delivered_h. Qed.
+Print Assumptions C05_parse_top_delivered_h.
+
+Theorem C05_do_parse_delivered_h : forall c0 pre t m,
+  esc_class_hg c0 = true -> t <> [] ->
+  do_parse c0 (pre ++ dashdash :: t) = OOk m ->
+  delivered_h (top_fuel c0) (build_self c0) t m.
+Proof. exact do_parse_delivered_h. Qed.
+Print Assumptions C05_do_parse_delivered_h.
+
+Theorem C05_esc_class_hg_def : forall c0,
+  esc_class_hg c0 = esc_class_h c0 && pos_freeb (all_globals (build_recursive (top_fuel c0) c0)) (top_fuel c0) (build_self c0).
+Proof. exact (fun c0 => eq_refl). Qed.
+Print Assumptions C05_esc_class_hg_def.
+
+(** ** (2) value terminators: outside every delivery class, and for a reason -- the terminator is compared after
+    the escape too ([Escape.tstep], [TS_term]).  [prog -- a ;] with [p (num_args 1.., value_terminator ";")] is
+    accepted with [p = [a]]: the token [;] of the tail reaches no argument.  Model and implementation agree
+    (corpus/C05/escape-main.r3.cases). *)
+Theorem C05_terminator_tail_dropped_refuted : exists c0 tail tok m,
+  esc_class_h c0 = true /\ In tok tail /\ do_parse c0 (dashdash :: tail) = OOk m /\ ms_sub m = None /\
+  forall y e, fm_get y (ms_args m) = Some e -> ~ In tok (concat (m_raw e)).
+Proof. exact terminator_tail_dropped_refuted. Qed.
+Print Assumptions C05_terminator_tail_dropped_refuted.
+
+(** ** (2) [Append] positionals with [num_args(1)]: one OCCURRENCE per token of the tail
+
+    Class [sink1 c a]: the positional counter cannot move ([sticky]), [a] is the positional at index 1, takes one
+    value per occurrence, has action [Append] and is in no overrides relation with itself.  The trailing-mode
+    loop followed by [resolve_pending]: the value groups of the entry of [a] are those of the state in which the
+    occurrence open at the start was closed, followed by ONE group per token, in order -- the stored form of
+    that token alone ([stored1]: the token itself with [dont_delimit_trailing_values] or without a delimiter). *)
+Theorem C05_append1_run : forall c, lvl c -> lvl_store c -> forall a, sink1 c a ->
+  forall t ls st s1 s2,
+  l_trailing ls = true -> l_pos ls = 1 ->
+  parse_loop c t ls st = ROk (LDone s1) -> resolve_pending c s1 = ROk s2 ->
+  exists b groups, resolve_pending c st = ROk b /\ stored1 c a t groups /\
+    raw_of (a_id a) s2 = raw_of (a_id a) b ++ groups.
+Proof. exact append1_run. Qed.
+Print Assumptions C05_append1_run.
+
+Theorem C05_sink1_def : forall c a t groups y st,
+  (sink1 c a <-> (sticky c = true /\ get_pos c 1 = Some a /\ a_multiple_values a = false /\ a_get_action a = AAppend
+                  /\ negb (existsb (fun o => beq o (a_id a)) (a_overrides a)) && negb (mem_id (a_id a) (a_overrides a)) = true))
+  /\ (stored1 c a t groups <-> Forall2 (fun tok g => tail_form c a [tok] = Some g) t groups)
+  /\ raw_of y st = match get_entry y st with Some e => m_raw e | None => [] end.
+Proof. exact (fun c a t groups y st => conj (conj (fun H => H) (fun H => H)) (conj (conj (fun H => H) (fun H => H)) eq_refl)). Qed.
+Print Assumptions C05_sink1_def.
+
+(** one level of [get_matches_with] (hyphen-accepting arguments allowed: fourth case) *)
+Theorem C05_level_append1 : forall c,
+  lvl c -> lvl_store c -> (forall vaf, possible_subcommand c dashdash vaf = None) ->
+  forall f pre t st0 st',
+  t <> [] -> mt_pending (mt st0) = None ->
+  get_matches_with (S f) c (pre ++ dashdash :: t) st0 = ROk st' ->
+  consumed_append1 c t st0 st' (parse_loop c (pre ++ dashdash :: t) ls0 st0)
+  \/ (exists n k v st1 r, parse_loop c (pre ++ dashdash :: t) ls0 st0 = ROk (LSub n k v st1 (r ++ dashdash :: t)))
+  \/ (exists tk r st1, parse_loop c (pre ++ dashdash :: t) ls0 st0 = ROk (LExternal tk (r ++ dashdash :: t) st1))
+  \/ hyphen_exception c t t ls0 st0
+       (parse_loop c (pre ++ dashdash :: t) ls0 st0) (parse_loop c (pre ++ dashdash :: t) ls0 st0).
+Proof. exact level_append1. Qed.
+Print Assumptions C05_level_append1.
+
+Theorem C05_consumed_append1_def : forall c t st0 st' lr,
+  consumed_append1 c t st0 st' lr <->
+  (forall a, sink1 c a ->
+    exists st1 x e before groups,
+      lr = ROk (LDone st1) /\ mt_sub (mt st') = mt_sub (mt st0) /\
+      get_entry (a_id a) st' = Some e /\ m_raw e = before ++ groups /\ stored1 c a (x ++ t) groups).
+Proof. exact (fun c t st0 st' lr => conj (fun H => H) (fun H => H)). Qed.
+Print Assumptions C05_consumed_append1_def.
+
+Theorem C05_gmw_delivered_a : forall fuel c pre t st0 st',
+  esc_okh fuel c -> t <> [] -> mt_pending (mt st0) = None -> mt_sub (mt st0) = None ->
+  get_matches_with fuel c (pre ++ dashdash :: t) st0 = ROk st' ->
+  delivered_a fuel c t (into_inner (mt st')).
+Proof. exact gmw_delivered_a. Qed.
+Print Assumptions C05_gmw_delivered_a.
+
+Theorem C05_delivered_a_def : forall f c t m,
+  delivered_a (S f) c t m <->
+  ((forall a, sink1 c a ->
+      ms_sub m = None /\
+      exists x e before groups, fm_get (a_id a) (ms_args m) = Some e /\ m_raw e = before ++ groups
+                                /\ stored1 c a (x ++ t) groups)
+   \/ (exists name sc sm, build_subcommand c name = Some sc /\ ms_sub m = Some (c_name sc, sm) /\ delivered_a f sc t sm)
+   \/ (exists name vals sm, ms_sub m = Some (name, sm) /\ ms_sub sm = None /\
+                            fm_get ext_id (ms_args sm) = Some (ext_marg (vals ++ dashdash :: t)))
+   \/ (exists a, In a (c_args c) /\ a_hyphen a = true)).
+Proof. exact (fun f c t m => conj (fun H => H) (fun H => H)). Qed.
+Print Assumptions C05_delivered_a_def.
+
+(** the entry points: class [esc_class_hg] (global arguments and hyphen-accepting arguments allowed) *)
+Theorem C05_parse_top_delivered_a : forall c0 bin pre t m,
+  esc_class_hg c0 = true -> is_set s_no_binary_name c0 = false -> c_bin_name c0 <> None -> t <> [] ->
+  parse_top c0 (bin :: pre ++ dashdash :: t) = OOk m ->
+  delivered_a (top_fuel c0) (build_self c0) t m.
+Proof. exact parse_top_delivered_a. Qed.
+Print Assumptions C05_parse_top_delivered_a.
+
+Theorem C05_do_parse_delivered_a : forall c0 pre t m,
+  esc_class_hg c0 = true -> t <> [] ->
+  do_parse c0 (pre ++ dashdash :: t) = OOk m ->
+  delivered_a (top_fuel c0) (build_self c0) t m.
+Proof. exact do_parse_delivered_a. Qed.
+Print Assumptions C05_do_parse_delivered_a.
